@@ -1476,6 +1476,8 @@ def gen_c07_spec(rng: random.Random) -> Dict[str, Any]:
         beh = gen_beh(rng, ["ok", "ok", "raise", "raise", "noresult"], allow_genexit=True)
         if beh["out"].startswith("raise:") and rng.random() < 0.12:
             beh["out"] = "raise:" + rng.choice(["Group1", "Group2", "GroupBase1", "GroupNoResult"])
+        elif beh["out"].startswith("raise:") and rng.random() < 0.1:
+            beh["out"] = "raise:LockedError"  # an exception object that cannot be pickled (it holds a lock)
         m: Dict[str, Any] = {"at": ats[i], "task": task, "ackable": rng.random() < 0.5, "beh": beh,
                              "labels": rng.choice([{}, {"a": 1}, {"s": "x", "f": 1.5, "b": True}, {"by": b"\xff\x00"},
                                                    {"_trace": "t-9", "X-Taskiq-origin": "edge", "__n": 2}, {"blob": b"", "z": 0, "e": "", "ff": False}])}
@@ -1705,6 +1707,8 @@ def gen_c12_spec(rng: random.Random, depth: int) -> Dict[str, Any]:
     for i in range(n):
         t += rng.choice([0, 0, 0.01, 0.05])
         beh = gen_beh(rng, ["ok", "raise", "raise", "noresult"], [[], ["y"], [0.05], [0.2]])
+        if beh["out"].startswith("raise:") and rng.random() < 0.15:
+            beh["out"] = "raise:LockedError"  # an exception object that cannot be pickled (it holds a lock)
         m: Dict[str, Any] = {"at": round(t, 6), "task": "tdep", "beh": beh, "ackable": rng.random() < 0.7,
                              "ack_async": rng.random() < 0.5}
         if fn == "sync":
@@ -1735,6 +1739,15 @@ def gen_c12_spec(rng: random.Random, depth: int) -> Dict[str, Any]:
     if rng.random() < 0.12:
         spec["via"] = "inmemory"
         spec["cfg"]["ack"] = "when_saved"
+    elif fn != "sync" and rng.random() < 0.15:
+        # a graceful stop with a short wait_tasks_timeout: executions that need longer are left running when listen()
+        # returns - their dependencies stay open for as long as their function runs
+        spec["cfg"]["W"] = rng.choice([0.05, 0.3])
+        spec["end_stream"] = False
+        spec["stop_at"] = round(max(m_["at"] for m_ in msgs) + rng.choice([0.01, 0.1]), 6)
+        for m_ in msgs:
+            if m_.get("timeout") is None and m_.get("timeout_raw") is None and rng.random() < 0.7:
+                m_["beh"]["dur"] = [rng.choice([1.0, 2.5])]
     spec["horizon"] = est_horizon(spec) + 5 * len(deps)
     return spec
 
